@@ -16,6 +16,9 @@ CLAIMED = {
  "C04": ("§7 C04", "Every output the real Writers produce for the C01 alphabet is judged only by independent decoders (strict binary validator / text grammar parser + symbol context machine), and every integer codec is enumerated over 0..2^16 and all 2^k±2 with length-function/bytes agreement.",
          "Trusts refbin, reftext and refsym; ion-go's Reader is never consulted.",
          "exhaustive enumeration of writer inputs and codec arguments on the implementation, outputs validated by an independent reference decoder"),
+ "C05": ("§7 C05", "Source documents produced by the reference printer/encoder (the whole value generator, plus every history of <=4 symbol-table events under five catalogs) in text and binary are copied by the documented copy loop into text, pretty and binary Writers; the independent decoder must read back the values the reference context machine assigns to the source, symbols compared by text.",
+         "Trusts refsym/refbin/reftext; longer histories are not covered; symbols whose text the source does not know are judged on histories of <=3 events (known findings).",
+         "explicit enumeration of source histories x destinations, replayed through the real Reader and Writer, judged by an independent decoder"),
  "C06": ("§7 C06", "Exhaustive enumeration of hostile inputs (all short byte strings in both formats, every slot of a symbol table x every odd value, every type code x extreme declared lengths/exponents/IDs, every byte position of seed documents x substitutions, deep nesting) x six fixed drivers covering Reader navigation with every accessor, Decoder and Unmarshal into 18 target types, run in isolated worker processes under an address-space limit: no panic, no worker death, a deterministic call budget (hang) and a heap-allocation budget proportional to the input.",
          "Allocation is measured with runtime/metrics; a worker death is attributed to the case announced before it started; inputs outside the enumerated families are not covered.",
          "exhaustive enumeration of short inputs and single faults x a fixed driver set on the implementation, with crash/hang/allocation monitors"),
